@@ -72,6 +72,7 @@ def make_case(gen, rng):
             r.append("n/a")
     hi = cols.index("HED")
     faults = []
+    na_mentions = []
     for ri, row in enumerate(b["rows"]):
         q = rng.random()
         if q < 0.3 and gen.defs:
@@ -105,6 +106,10 @@ def make_case(gen, rng):
                 m = None
             if m:
                 row[hi] = m["text"]
+                if rng.random() < 0.3 and "description" in gen.o.by_short:
+                    # free text that mentions n/a: the cell is not an n/a cell and takes part like any other
+                    row[hi] += ", Description/Recorded as n/a"
+                    na_mentions.append(ri)
                 faults.append(dict(row=ri, col="HED", code=m["code"], kind=m["kind"]))
     # a scope opened in one row and closed in the next; half the time late in a long recording with times 0.1 ms apart
     plain_defs = [d for d in gen.defs if not d["takes_value"]]
@@ -158,7 +163,8 @@ def make_case(gen, rng):
         b["rows"][k] = ["n/a"] * len(cols)
         blank_rows = [k]
         faults = [f for f in faults if f["row"] != k]
-    return dict(kind=kind, bundle=b, defs=defs, faults=faults, blank_rows=blank_rows, scope_pair=scope_pair)
+    return dict(kind=kind, bundle=b, defs=defs, faults=faults, blank_rows=blank_rows, scope_pair=scope_pair,
+                na_mentions=len(na_mentions))
 
 
 def build_input(case, rows=None):
@@ -581,6 +587,8 @@ def run_shard(shard, rec):
         case["perms"] = shard["perms"]
         nt = len(case["bundle"]["rows"]) >= 2 and (bool(case["faults"]) or "onset" in json.dumps(case["bundle"]["rows"]).casefold())
         rec.case(json.dumps(case, sort_keys=True), nt)
+        if case.get("na_mentions") and "onset" in case["bundle"]["columns"]:
+            rec.count("cell-kind", "timed-row-cell-mentioning-na", case["na_mentions"])
         check_case(case, rec)
         rec.count("input-kind", case["kind"])
         rec.count("faults", str(len(case["faults"])))
@@ -605,3 +613,6 @@ def finalize(merged, tier, inconclusive):
     got = merged.hist.get("permuted", {}).get("scope-pair-rows", 0)
     if got < 40:
         inconclusive.append(f"row permutations of files with an Onset row followed by its Offset row: {got} (< 40)")
+    got = merged.hist.get("cell-kind", {}).get("timed-row-cell-mentioning-na", 0)
+    if got < 25:
+        inconclusive.append(f"faulty cells of timed rows that also mention n/a in free text: {got} (< 25)")
